@@ -29,6 +29,7 @@ type PropertySpec struct {
 	Level      string   `json:"level"`
 	Trusted    []string `json:"trusted_base"`
 	NoClosure  bool     `json:"no_closure,omitempty"`
+	Explanation string  `json:"explanation,omitempty"` // for level "other": what the run means
 	SweepFiles []string `json:"sweep_files,omitempty"` // safety sweep: every function declared in these files (relative to /repo) gets a thin contract; only safe.* obligations are claimed
 }
 
@@ -295,6 +296,7 @@ func cmdCheck(args []string) int {
 	var funcOrder []string
 	assumptions := map[string]bool{}
 	abstracted := map[string]bool{}
+	boundsNote = map[string]bool{}
 	for _, g := range gens {
 		fr := &funcReport{Name: g.fname}
 		if g.fn != nil {
@@ -316,6 +318,9 @@ func cmdCheck(args []string) int {
 		}
 		for a := range g.assumptions {
 			assumptions[a] = true
+		}
+		for _, bd := range g.bounded {
+			boundsNote[g.fname+": "+bd] = true
 		}
 		for _, si := range g.staleInvs {
 			fmt.Printf("STALE-INVARIANT %s: %s\n", g.fname, si)
@@ -637,7 +642,17 @@ func oblOK(r Result) bool {
 }
 
 var sweepNote []string
+var boundsNote map[string]bool
 var thoroughSelftest string
+
+func boundList() []string {
+	out := []string{}
+	for b := range boundsNote {
+		out = append(out, b)
+	}
+	sort.Strings(out)
+	return out
+}
 
 func nonNil(s []string) []string {
 	if s == nil {
@@ -746,12 +761,16 @@ func buildEvidence(id, tier string, seed int, ps *PropertySpec, reports []oblRep
 		"slow_obligations":         slow,
 		"not_decided":              ps.NotDecided,
 		"sweep_not_shown_safe":     nonNil(sweepNote),
+		"bounded":                  boundList(),
 		"selftest":                 thoroughSelftest,
 		"violating_obligations":    nonNil(violations),
 		"evaluations":              len(reports),
 		"distinct_nontrivial":      len(reports),
 		"rule":                     "one SMT query per obligation (per split instance and per return statement); all are distinct conditions generated from the current source",
 		"integers":                 "mathematical Int; every machine-arithmetic result carries an `overflow` obligation proving it fits its Go type",
+	}
+	if ps.Explanation != "" {
+		cov["explanation"] = ps.Explanation
 	}
 	return map[string]interface{}{
 		"property_id": id,
